@@ -8,15 +8,20 @@
 (* may-fit and re-fits if data were stored earlier.  One user call is ONE action whose  *)
 (* effect is that synchronous cascade (recursive operators over a threaded state).      *)
 (*                                                                                      *)
-(* The code's test `_fitted_conditioners.issubset(dependent_parameters.values())` is    *)
-(* kept as written (SubsetAsInCode): it is true from the first callback on, so a        *)
-(* function with two conditioners may be fitted before the second one is - the property *)
-(* still holds because every later callback re-fits.  The mutation constant NoRefit     *)
-(* removes that re-fit and must violate FittedAfterConditioners.                        *)
+(* callback sets may-fit once ALL conditioners have reported in                          *)
+(* (`dependent_parameters.values() <= _fitted_conditioners`).  Up to the repair of D40   *)
+(* the code tested the reverse inclusion, which is true from the first callback on, so   *)
+(* that a function with two conditioners was fitted before the second one was - the      *)
+(* end-of-round property still held in the model because every later callback re-fits,   *)
+(* but the premature fit runs with a conditioner at its start parameters and fails for   *)
+(* shapes that are not finite there.  Mutations (constant Mutation):                      *)
+(*   "norefit"        callback does not re-fit an already fitted function; must violate   *)
+(*                    FittedAfterConditioners                                            *)
+(*   "subsetreversed" the inclusion as written before D40; must violate NoPrematureFit    *)
 EXTENDS DepFitOps, TLC, Json
 
 CONSTANTS MaxRound,     \* number of fit rounds (round 1 = first fit, later rounds = re-fit)
-          NoRefit,      \* mutation: callback does not re-fit an already fitted function
+          Mutation,     \* "none" | "norefit" | "subsetreversed" (see above)
           EmitBeh       \* TRUE: print every complete behaviour as JSON (leg R)
 
 VARIABLES g,        \* index into Graphs
@@ -35,7 +40,7 @@ Init == /\ g \in 1..Len(Graphs)
         /\ round = 1 /\ called = {} /\ hist = <<>>
 
 Fit(f) == /\ f \in Fs \ called
-          /\ LET s == FitCall(G, decl, NoRefit, [st EXCEPT !.log = <<>>], f, round) IN
+          /\ LET s == FitCall(G, decl, Mutation, [st EXCEPT !.log = <<>>], f, round) IN
                /\ st' = s
                /\ hist' = Append(hist, [op |-> "fit", f |-> f, d |-> round])
           /\ called' = called \cup {f}
@@ -52,6 +57,11 @@ Spec == Init /\ [][Next]_vars
 (* ---- the property: at the end of every round every function has the parameters      *)
 (* obtained by fitting it to this round's data AFTER all its conditioners were fitted   *)
 FittedAfterConditioners == called = Fs => Consistent(G, st, round)
+
+(* no function is ever fitted while one of its conditioners still has its start          *)
+(* parameters (such a fit may fail, and its result is the start of the final fit)         *)
+NoPrematureFit ==
+    \A f \in Fs : st.pv[f].kind = "fit" => \A c \in DepSet(G, f) : st.pv[f].conds[c].kind = "fit"
 
 (* a function without conditioners is fitted at once by the user call *)
 IndependentFitImmediately ==
